@@ -225,16 +225,6 @@ def IdsFresh (L : Levels) (nextId : Nat) : Prop :=
 sequence number ranges are disjoint and increasing), and what makes `OrderOldToNew` the insertion order there -/
 def L0AgeOrdered (L : Levels) : Prop := (L.headD []).Pairwise (fun a b => age a < age b)
 
-/-- The thresholds are not negative and the level-0 trigger is at least 1 (`dkv.New` turns 0 into 2): a "too big"
-answer is only given about something that is not empty. -/
-structure OracleSane (c : Compactor) (L : Levels) (o : Oracle) : Prop where
-  /-- `L0RunNumCompactionTrigger ≥ 1` -/
-  l0 : c.minorLevel = 0 → o.l0Few = false → L.headD [] ≠ []
-  /-- `SmallestLevelSize ≥ 0`: a level whose `ByteSize` exceeds `SmallestLevelSize*Num` holds a table -/
-  level : ∀ i, o.levelOver i = true → L.getD i [] ≠ []
-  /-- `MaxSizeAmplificationPercent ≥ 0`: `Percentage() > Max` needs bytes above the base level -/
-  amp : o.overAmp = true → L.dropLast.flatten ≠ []
-
 /-! ## Compaction next to flushes -/
 
 structure Sys where
@@ -260,9 +250,9 @@ def FlushOK (L : Levels) (runs : List Run) : Prop :=
   (∀ r ∈ runs, ∀ t ∈ L.flatten, Newer r t.run) ∧
   (∀ r ∈ runs, ∀ t ∈ L.headD [], ∀ e ∈ r, age t < e.seq)
 
-/-- side conditions of an action: sane oracle answers, well-formed flushes -/
+/-- side condition of an action: flushes are well formed (the oracle answers of a compaction are free) -/
 def ActOK (s : Sys) : Act → Prop
-  | .compactBegin o => OracleSane s.c s.L o
+  | .compactBegin _ => True
   | .compactCommit => True
   | .flush runs => FlushOK s.L runs
 
